@@ -150,8 +150,8 @@ impl<'a> PrettyPrinter<'a> {
     }
 
     pub(super) fn convert_binary_chain(&'a self, ctx: Context, binary: Binary<'a>) -> ArenaDoc<'a> {
-        let op = binary.op();
-        let prec = op.precedence();
+        let prec = binary.op().precedence();
+        let seen_not = std::cell::Cell::new(false);
         ChainStylist::new(self)
             .process_resolved(
                 ctx,
@@ -161,8 +161,13 @@ impl<'a> PrettyPrinter<'a> {
                         .is_some_and(|binary| binary.op().precedence() == prec)
                 },
                 |child| {
-                    if child.kind() == SyntaxKind::In && op == BinOp::NotIn {
-                        Some(self.arena.text(op.as_str()))
+                    // `not in` is spelled with two tokens. Whether an `in` belongs to one is a
+                    // matter of the operand at hand, not of the outermost operator of the chain.
+                    if child.kind() == SyntaxKind::Not {
+                        seen_not.set(true);
+                        None
+                    } else if child.kind() == SyntaxKind::In && seen_not.replace(false) {
+                        Some(self.arena.text(BinOp::NotIn.as_str()))
                     } else {
                         BinOp::from_kind(child.kind()).map(|op| self.arena.text(op.as_str()))
                     }
